@@ -48,6 +48,23 @@ fn p_line(l: Line) -> String {
         let q = pts.last().unwrap();
         return format!("FAIL last {}:{}", q.x, q.y);
     }
+    // constructors and accessors: Line::new vs struct literal, Line::delta, Line::with_delta, Line::midpoint
+    if Line::new(l.start, l.end) != (Line { start: l.start, end: l.end }) {
+        return "FAIL Line::new differs from the struct literal".into();
+    }
+    let dl = l.delta();
+    if dl.x as i128 != dx || dl.y as i128 != dy {
+        return format!("FAIL Line::delta {}:{} expected {}:{}", dl.x, dl.y, dx, dy);
+    }
+    let wd = Line::with_delta(l.start, dl);
+    if wd != l {
+        return format!("FAIL Line::with_delta(start, delta) = {}:{} -> {}:{}", wd.start.x, wd.start.y, wd.end.x, wd.end.y);
+    }
+    let mp = l.midpoint();
+    // i32 `/` truncates towards zero
+    if mp.x as i128 != l.start.x as i128 + dx / 2 || mp.y as i128 != l.start.y as i128 + dy / 2 {
+        return format!("FAIL Line::midpoint {}:{}", mp.x, mp.y);
+    }
     let ymaj = dy.abs() >= dx.abs();
     for (k, p) in pts.iter().enumerate() {
         let ox = p.x as i128 - l.start.x as i128;
@@ -202,6 +219,10 @@ pub fn run(suite: &str, a: &[&str]) -> Option<String> {
         "thick_digest" | "thick_walk" => digest(thick(a)),
         "line_sbb" => src(ln(a).into_styled(PrimitiveStyle::with_stroke(Gray8::new(1), u(a[4]))).bounding_box()),
         "p_thick" => p_thick(ln(a), u(a[4])),
+        "line_with_delta" => {
+            let l = Line::with_delta(pt(a[0], a[1]), pt(a[2], a[3]));
+            format!("{}:{} {}:{} {}:{}", l.start.x, l.start.y, l.end.x, l.end.y, l.delta().x, l.delta().y)
+        }
         "p_line" => p_line(ln(a)),
         _ => return None,
     })
